@@ -16,8 +16,8 @@ from fgutils.proxy import Proxy, MolProxy, ReactionProxy, ProxyGroup, ProxyGraph
 
 ID = "C14"
 PROPS = "Props/C14.v"
-MODEL_FILES = ["Model/ProxyGen.v", "Gen/ProxyDA.v", "Spec/ProxyGenCheck.v", "Spec/ProxyRefCheck.v"]
-IMPORTS = "From FGV Require Import Base.NXMulti Model.Proxy Model.ProxyTerms Model.ProxyGen Spec.ProxyGenSpec Spec.ProxyGenCheck Spec.ProxyRefCheck Gen.ProxyDA."
+MODEL_FILES = ["Model/ProxyGen.v", "Gen/ProxyDA.v", "Spec/ProxyGenCheck.v", "Spec/ProxyRefCheck.v", "Spec/ProxyParserCheck.v"]
+IMPORTS = "From FGV Require Import Base.NXMulti Model.Proxy Model.ProxyTerms Model.ProxyGen Spec.ProxyGenSpec Spec.ProxyGenCheck Spec.ProxyRefCheck Spec.ProxyParserCheck Gen.ProxyDA."
 CHECKS = ["agree", "spec", "bonds"]
 USES_GEN = ["proxyda"]
 CHUNK = 25
@@ -36,7 +36,13 @@ RULE = ("random acyclic group DAGs: 1-5 groups on levels 1-4, a group references
         "driven through Proxy / MolProxy / ReactionProxy-as-Proxy with core as str / list / unique ProxyGroup and groups "
         "as ProxyGroup / list / dict; enumeration size <= 300 (quick; thorough: <= 1500 for 12% of the cases) by the count formula; "
         "common_groups with small cores; thorough: the full Diels-Alder proxy, both modes, every graph (sliced). "
-        "non-trivial = at least 2 results and a group referenced from a group; distinct = distinct configuration")
+        "on top of the configurations (separate random stream): 22% get one or two core graphs repeated (distinct ProxyGraph "
+        "objects with equal pattern and anchor: each counts), 22% an iteration history on ONE proxy object (k = 0..n+1 items "
+        "through next() / get_next() / a for-loop left with break, then list(proxy); the concatenation is compared with the "
+        "whole enumeration, then next() must raise StopIteration), 6% two proxies over the SAME ProxyGroup and core "
+        "ProxyGraph objects driven alternately (both must yield the whole enumeration), 20% an explicit "
+        "Parser(use_multigraph=True|False, init_aam=True|False). "
+        "non-trivial = at least 2 results and a group referenced from a group; distinct = distinct configuration + history + parser")
 TRUSTED = ["the pattern parser (not part of this property): patterns reach the model as the MultiGraphs the real "
            "Parser(use_multigraph=True) returns at offset 0",
            "model of the attribute dict as a record of the five keys FGUtils uses; edge data = the single key 'bond'",
@@ -46,8 +52,14 @@ ASSUMPTIONS = ["parser.parse(pattern, idx_offset=m) is parser.parse(pattern) wit
                "orders and edge keys unchanged (validated on every pattern of every case at offsets 3 and 17; node "
                "numbering from the offset is proved for the parser model in C01)",
                "samplers: groups use the default GraphSampler(unique=False), the core group GraphSampler(unique=True) "
-               "over pairwise distinct ProxyGraph objects; custom samplers are outside the model (the translator and "
-               "the harness fail closed on them)",
+               "over pairwise distinct ProxyGraph OBJECTS (equal contents allowed and generated: each object counts); "
+               "custom samplers are outside the model (the translator and the harness fail closed on them)",
+               "explicit parsers: Parser(use_multigraph=True, init_aam=..) is covered by the model (the final aam overwrite "
+               "makes parse-time map numbers irrelevant) except init_aam=True with enable_aam=False, where the parse-time "
+               "numbers stay on the nodes: there, and for Parser(use_multigraph=False) (simple-graph path: no nx.Graph "
+               "collapse, Graph.copy/compose/relabel, not modelled above replace_node), 'agree' does not apply and only "
+               "the decidable checkers (count, ids, no group label, aam rule, signature multiset against the reference "
+               "expander, with the configuration as that parser reads it) run on the implementation's outputs",
                "theorems: acyclic configuration (a rank function on group names exists), every labelled node names at "
                "most one configured group, dict keys equal group names, anchors non-empty and inside non-empty patterns",
                "bond conservation additionally assumes patterns without self-loops, and for the collapsed graph that the "
@@ -206,6 +218,41 @@ def gen_config(rng, limit, big=False):
     raise RuntimeError("no configuration found")
 
 
+DRIVES = ["next", "get_next", "break"]
+PARSERS = [[True, False], [True, True], [False, False], [False, True]]
+
+
+def decorate(rng, c, limit):
+    """Independent of the configuration stream: duplicate core graphs (distinct ProxyGraph objects with equal
+    pattern and anchor must count separately), iteration histories (k items through next()/get_next()/a broken
+    for-loop, then list(proxy) on the SAME object), two proxies over shared group/ProxyGraph objects driven
+    alternately, explicit parsers."""
+    cfg = c["cfg"]
+    r = rng.random()
+    if r < 0.22 and cfg["core"]:
+        cfg["core"] = list(cfg["core"])
+        for _ in range(rng.choice([1, 1, 2])):
+            j = rng.randrange(len(cfg["core"]))
+            cfg["core"].insert(rng.randrange(len(cfg["core"]) + 1), [cfg["core"][j][0], list(cfg["core"][j][1])])
+        c["expected"] = pc.count_formula(cfg, limit=100 * limit)
+        c["dup_core"] = True
+    r = rng.random()
+    if r < 0.22:
+        n = c.get("expected") or 3
+        k = rng.choice([1, 1, 2, max(1, n // 2), max(1, n - 1), n, n + 1, 0])
+        c["drive"] = [rng.choice(DRIVES), k]
+    elif r < 0.28:
+        c["drive"] = ["alt", 0]
+    if c.get("drive"):
+        # next(proxy) must hand out the graphs themselves
+        if c["cls"] == "ReactionProxy":
+            c["cls"] = "Proxy"
+    r = rng.random()
+    if r < 0.2:
+        c["parser"] = rng.choice(PARSERS)
+    return c
+
+
 COMMON_CORES = ["C{alkyl}", "{aryl}C{halogen}", "C{amine}", "{any}", "C{alkene}C", "{carbon_chain}1CC1", "N{ester}{H}",
                 "C{H}", "{allyl}{H}O", "C({H})({halogen}){methyl}", "{3-amine}", "C{CC3}C", "C1{CC2}1", "{H}{H}",
                 "{ether}1CC1", "C{x_1}{alkohol}", "c1ccccc1{nitrile}"]
@@ -252,7 +299,7 @@ def generate(seed, tier, ncases=None):
         else:
             r = rng.random()
             lim = limit if r < 0.12 else 300 if r < 0.7 else 40
-        yield gen_config(rng, lim, big=not quick)
+        yield decorate(lib.rng_for(seed, ID + "deco", i), gen_config(rng, lim, big=not quick), lim)
     # shipped collections with small cores
     for j, core in enumerate(COMMON_CORES):
         rng = lib.rng_for(seed, ID + "common", j)
@@ -307,6 +354,23 @@ def corpus():
     yield _mk(["C{a}C"], [("a", [["CC", []]])])
     yield _mk(["{a}"], [("a", [["CC", []]])])
     yield _mk(["C{a}"], [("a", [["CC", [-1]]])])
+    # two distinct core ProxyGraph objects with the same pattern and anchor count separately (sum over core graphs)
+    yield _mk(["C{g}", "C{g}"], [("g", ["C", "O"])], how="plain")
+    yield _mk(["C{g}", "N", "C{g}"], [("g", ["C", "O", ""])], how="dict")
+    # iteration histories on one object: k items, then list(proxy), then StopIteration
+    for drv in (["next", 1], ["get_next", 2], ["break", 1], ["break", 3], ["next", 4], ["alt", 0]):
+        c = _mk(["C{g}N", "O{g}"], [("g", ["C", "O", "S"])], how="list")
+        c["drive"] = drv
+        yield c
+    c = _mk(["C{g}{h}"], [("g", ["C", "O"]), ("h", ["N", "{g}"])])
+    c["drive"] = ["next", 2]
+    yield c
+    # explicit parsers: init_aam / use_multigraph, with and without enable_aam
+    for ps in PARSERS:
+        for aam, cls in ((True, "Proxy"), (False, "Proxy"), (False, "MolProxy")):
+            c = _mk(["C{g}N{h}", "O{h}"], [("g", ["CC", "", "C=O"]), ("h", [["C{g}", [1, 0]], "S"])], aam=aam, cls=cls)
+            c["parser"] = ps
+            yield c
     # nothing to expand, empty core pattern
     yield _mk(["CCO"], [("a", ["C"])])
     yield _mk([""], [("a", ["C"])])
@@ -346,6 +410,85 @@ def _iterate(p, base_next):
     return graphs, status, stays
 
 
+EXC = ((RuntimeError, "RuntimeError"), (ValueError, "ValueError"), (IndexError, "IndexError"), (KeyError, "KeyError"))
+
+
+def _status_of(e):
+    for cls, name in EXC:
+        if isinstance(e, cls):
+            return name
+    raise e
+
+
+def _stays(p):
+    ok = True
+    for _ in range(2):
+        try:
+            next(p)
+            ok = False
+        except StopIteration:
+            pass
+    return ok
+
+
+def _drive(p, drv):
+    """k items through next() / get_next() / a for-loop left with break, then list(p) on the same object; what was
+    obtained before and after, concatenated, must be the whole enumeration; then next(p) must raise StopIteration."""
+    kind, k = drv
+    items, status = [], "done"
+    try:
+        try:
+            if kind == "next":
+                for _ in range(k):
+                    items.append(next(p))
+            elif kind == "get_next":
+                for _ in range(k):
+                    items.append(p.get_next())
+            elif kind == "break" and k > 0:
+                for x in p:
+                    items.append(x)
+                    if len(items) >= k:
+                        break
+        except StopIteration:
+            pass
+        for x in p:            # like list(p), but what was yielded before an exception is kept
+            items.append(x)
+    except (RuntimeError, ValueError, IndexError, KeyError) as e:
+        status = _status_of(e)
+    return items, status, _stays(p)
+
+
+def _alternate(cfg, cls, parser):
+    """Two proxy objects over the SAME ProxyGroup objects and the SAME core ProxyGraph objects (each with its own
+    unique core group), driven alternately: each must yield the whole enumeration."""
+    groups = {key: ProxyGroup(name, [ProxyGraph(p, anchor=list(a)) for p, a in graphs]) for key, name, graphs in cfg["groups"]}
+    cores = [ProxyGraph(p, anchor=list(a)) for p, a in cfg["core"]]
+
+    def mk():
+        core = ProxyGroup("__core__", cores, unique=True)
+        if cls is MolProxy:
+            return cls(core, groups, parser=pc.make_parser(parser))
+        return cls(core, groups, enable_aam=cfg["aam"], parser=pc.make_parser(parser))
+
+    ps = [mk(), mk()]
+    outs, status, live = [[], []], ["done", "done"], [True, True]
+    while any(live):
+        for i in (0, 1):
+            if live[i]:
+                try:
+                    outs[i].append(next(ps[i]))
+                except StopIteration:
+                    live[i] = False
+                except (RuntimeError, ValueError, IndexError, KeyError) as e:
+                    status[i] = _status_of(e)
+                    live[i] = False
+    msgs = []
+    if status[0] != status[1] or len(outs[0]) != len(outs[1]) or not all(cm.identical(a, b) for a, b in zip(*outs)):
+        msgs.append("two proxies over the same group and ProxyGraph objects, driven alternately, yield different enumerations "
+                    "(%d %s / %d %s)" % (len(outs[0]), status[0], len(outs[1]), status[1]))
+    return ps[0], outs[0], status[0], _stays(ps[0]) and _stays(ps[1]), msgs
+
+
 def run_impl(c):
     if c["kind"] == "da":
         key = c["neg"]
@@ -357,23 +500,31 @@ def run_impl(c):
         i, k = c["slice"]
         return {"graphs": graphs[i:i + k], "status": status, "stays": stays, "n": len(graphs), "msgs": []}
     cls = {"Proxy": Proxy, "MolProxy": MolProxy, "ReactionProxy": ReactionProxy}[c["cls"]]
-    cfg = c["cfg"]
-    if c["cls"] == "MolProxy":
-        cfg = dict(cfg, aam=False)
-        groups = {key: ProxyGroup(name, [ProxyGraph(p, anchor=list(a)) for p, a in graphs]) for key, name, graphs in cfg["groups"]}
-        core = ProxyGroup("__core__", [ProxyGraph(p, anchor=list(a)) for p, a in cfg["core"]], unique=True)
-        p = MolProxy(core, groups)
-    else:
-        p = pc.build_proxy(cfg, cls=cls, how=c["how"])
+    cfg = eff_cfg(c)
+    drv = c.get("drive")
     msgs = []
+    if drv and drv[0] == "alt":
+        p, graphs, status, stays, msgs = _alternate(cfg, cls, c.get("parser"))
+    else:
+        p = pc.build_proxy(cfg, cls=cls, how=c["how"], parser=c.get("parser"))
     try:
-        dumped = pc.dump_proxy(p)
-        if dumped != eff_cfg(c):
+        dumped = pc.dump_proxy(p, any_parser=c.get("parser") is not None)
+        if dumped != cfg:
             msgs.append("the proxy object does not hold the configuration it was built from")
     except pc.Unexpected as e:
-        msgs.append("proxy object outside the modelled domain: %s" % e)
-    graphs, status, stays = _iterate(p, Proxy.get_next)
+        if not (drv and drv[0] == "alt"):     # after the alternate run the core sampler has a history
+            msgs.append("proxy object outside the modelled domain: %s" % e)
+    if drv and drv[0] == "alt":
+        pass
+    elif drv:
+        graphs, status, stays = _drive(p, drv)
+    else:
+        graphs, status, stays = _iterate(p, Proxy.get_next)
     return {"graphs": graphs, "status": status, "stays": stays, "n": len(graphs), "msgs": msgs}
+
+
+def parser_mg(c):
+    return True if c.get("parser") is None else bool(c["parser"][0])
 
 
 def eff_cfg(c):
@@ -414,10 +565,21 @@ def coq_case(c, out):
             raise RuntimeError("case does not use the shipped groups")
         cfgt = "(mkCfg %s %s %s)" % (ct.lst([pc.pgraph_term(p, a) for p, a in cfg["core"]]), gname, ct.b(cfg["aam"]))
     else:
-        cfgt = pc.cfg_term(cfg)
+        cfgt = pc.cfg_term(cfg, mg=parser_mg(c))
     defs = {"cfg": cfgt, "out": graphs_term(out["graphs"])}
     agree = "gen_eqb (proxy_all $cfg) ($out, %s)" % STATUS[out["status"]]
-    spec = "C14_full_okb $cfg $out" if out["status"] == "done" else "C14_err_okb $cfg"
+    okb = "C14_full_okb"
+    ps = c.get("parser")
+    if ps is not None:
+        # Model.ProxyGen covers the MultiGraph path with the final aam overwrite: an explicit multigraph parser is
+        # modelled unless it writes map numbers that enable_aam=False leaves in place; a simple-graph parser is not
+        # modelled (no nx.Graph collapse, Graph.copy/compose/relabel): there only the checkers run on the outputs,
+        # with the configuration read by that parser
+        if not ps[0] or (ps[1] and not cfg["aam"]):
+            agree = "true"
+        if ps[1] and not cfg["aam"]:
+            okb = "C14_full_noaam_okb"
+    spec = "%s $cfg $out" % okb if out["status"] == "done" else "C14_err_okb $cfg"
     # bond conservation as the property states it fails exactly when some expansion has parallel bonds:
     # nx.Graph(multigraph) keeps only one of them (C14_collapse_refuted; known finding KF-C14-collapse)
     bonds = "negb (C14_parallel_leaf $cfg)" if out["status"] == "done" else "true"
@@ -427,7 +589,8 @@ def coq_case(c, out):
 
 def describe(c):
     d = {"kind": c["kind"], "cfg": c["cfg"] if c["kind"] != "da" else "DielsAlderProxy(neg_sample=%s)" % c["neg"],
-         "how": c["how"], "cls": c["cls"], "expected": c.get("expected"), "neg": c.get("neg")}
+         "how": c["how"], "cls": c["cls"], "expected": c.get("expected"), "neg": c.get("neg"),
+         "drive": c.get("drive"), "parser": c.get("parser")}
     if c["kind"] == "da":
         d["neg"] = c["neg"]
         d["slice"] = c["slice"]
@@ -443,7 +606,7 @@ def from_json(d):
     cfg = {"core": [[p, list(a)] for p, a in cfg["core"]],
            "groups": [[k, n, [[p, list(a)] for p, a in gl]] for k, n, gl in cfg["groups"]], "aam": cfg["aam"]}
     return {"kind": d["kind"], "cfg": cfg, "how": d["how"], "cls": d["cls"], "expected": d.get("expected"),
-            "neg": d.get("neg")}
+            "neg": d.get("neg"), "drive": d.get("drive"), "parser": d.get("parser")}
 
 
 def describe_out(out):
@@ -456,7 +619,8 @@ def key(c):
         return ("da", c["neg"], tuple(c["slice"]))
     cfg = eff_cfg(c)
     return (tuple((p, tuple(a)) for p, a in cfg["core"]),
-            tuple((k, n, tuple((p, tuple(a)) for p, a in gl)) for k, n, gl in cfg["groups"]), cfg["aam"])
+            tuple((k, n, tuple((p, tuple(a)) for p, a in gl)) for k, n, gl in cfg["groups"]), cfg["aam"],
+            tuple(c.get("drive") or ()), tuple(c.get("parser") or ()))
 
 
 def _nested(cfg):
@@ -496,6 +660,14 @@ def classes(c, out):
         return
     cfg = eff_cfg(c)
     yield "api=%s/%s" % (c["cls"], c["how"])
+    if c.get("drive"):
+        yield "history=%s" % c["drive"][0]
+        if 0 < c["drive"][1] < n:
+            yield "history_splits_enumeration=yes"
+    if c.get("parser") is not None:
+        yield "parser=use_multigraph:%s,init_aam:%s" % tuple(c["parser"])
+    if len(set((p, tuple(a)) for p, a in cfg["core"])) < len(cfg["core"]):
+        yield "equal_core_graphs=yes"
     yield "aam=%s" % cfg["aam"]
     yield "cores=%d" % len(cfg["core"])
     pats = pc.all_patterns(cfg)
@@ -509,7 +681,7 @@ def classes(c, out):
         yield "multi_anchor=yes"
     if any(any(l in NONGROUP for l in d["labels"]) for p in pats for _, d in (ok_pattern(p) or nx.Graph()).nodes(data=True)):
         yield "nongroup_label=yes"
-    if out["status"] == "done" and c["kind"] in ("gen", "corpus") and n <= 400 and _has_parallel_leaf(c):
+    if out["status"] == "done" and c["kind"] in ("gen", "corpus") and n <= 400 and parser_mg(c) and _has_parallel_leaf(c):
         yield "parallel_bonds_collapsed=yes"
     if out["status"] == "done" and c.get("expected") is not None:
         yield "count_formula=" + ("equal" if c["expected"] == n else "DIFFERENT")
@@ -517,7 +689,7 @@ def classes(c, out):
 
 def py_invariants(c, out):
     msgs = list(out["msgs"])
-    msgs += pc.shift_messages(c["cfg"])
+    msgs += pc.shift_messages(c["cfg"], parser_mg(c))
     if not out["stays"]:
         msgs.append("the exhausted proxy yielded again")
     if c["kind"] == "da" and out["n"] != c["total"]:
